@@ -333,11 +333,14 @@ impl<'a> ExprAST<'a> {
     }
 
     fn postfix_expr(&self, lhs: &ExprAST, op: &str) -> String {
+        // a word operator glued to a following `,` `;` or `:` would be read as part of a longer word
+        let symbolic = op.starts_with(|c: char| "+-*/^%&!=?:><|".contains(c));
+        let tail = if symbolic { "" } else { " " };
         // a postfix operator applies to one atom
         if lhs.is_atom() {
-            return lhs.expr() + " " + op;
+            return lhs.expr() + " " + op + tail;
         }
-        lhs.paren_expr() + " " + op
+        lhs.paren_expr() + " " + op + tail
     }
 
     fn ternary_expr(&self, condition: &ExprAST, lhs: &ExprAST, rhs: &ExprAST) -> String {
